@@ -16,7 +16,8 @@ RULE = ('cases: server or client endpoint with 3 live streams (client: optionall
         'that keeps to its own view of the stream and of both flow-control windows: HEADERS (response, 1xx, trailers, '
         'each adding a new field to the HPACK dynamic table), DATA of 0..16384 bytes with/without padding and '
         'END_STREAM, WINDOW_UPDATE, RST_STREAM, PRIORITY, PUSH_PROMISE on the reset stream and response HEADERS/DATA on '
-        'the refused promised stream, in chunks. Oracle: no receive_data raises; no event for a reset or refused stream '
+        'the refused promised stream, in chunks; in about a third of the cases another live stream is then reset and '
+        'the peer spends that stream\'s whole window on racing DATA frames that are mostly padding. Oracle: no receive_data raises; no event for a reset or refused stream '
         'except PriorityUpdated; only RST_STREAM / WINDOW_UPDATE are emitted; the peer model is never blocked by the '
         'connection window although only racing DATA was sent; a header block on a live stream that refers to the '
         'fields indexed by the racing blocks decodes to exactly those fields. evaluations = receive_data calls; '
@@ -200,6 +201,44 @@ def run_case(data):
         race['frames'] += 1
         r.step('in-flight', op, sid, len(fr))
         feed([fr])
+    # -- flood: a whole stream window of racing DATA, mostly padding, on a freshly reset stream -------------
+    if live and not r.violations and ch.chance(90):
+        v = live.pop()
+        ps = peer[v]
+        o = s.call('reset_stream', v, 8)
+        if not o.ok:
+            viol('reset_stream-refused:%s' % o.exc_name)
+            return r
+        dead.add(v)
+        if ch.bool():
+            _ = s.c.open_inbound_streams, s.c.open_outbound_streams
+        if client and not ps.headers_sent:
+            feed([wire.headers(v, s.hblock(list(RESP) + [new_field()]))])
+            race['blocks'] += 1
+            ps.headers_sent = True
+        plen, pad = ch.pick([(0, 255), (0, 255), (100, 155), (1, 0), (256, None)])
+        unit = plen + (0 if pad is None else pad + 1)
+        nframes = 0
+        while not r.violations and ps.win > 0:
+            fc = min(unit, ps.win)
+            if conn[0] < fc:
+                blocked[0] = True
+                break
+            if fc == unit:
+                fr = wire.data(v, b'f' * plen, pad=pad)
+            else:
+                fr = wire.data(v, b'', pad=fc - 1)
+            ps.win -= fc
+            conn[0] -= fc
+            race['data'] += fc
+            nframes += 1
+            feed([fr])
+            if unit < 128 and nframes >= 300:
+                break
+        r.step('flood', v, 'payload', plen, 'pad', pad, 'frames', nframes, 'peer view of connection window', conn[0])
+        r.labels.add('flood')
+        if not r.violations and not blocked[0] and conn[0] <= 0:
+            blocked[0] = True
     if blocked[0] and not r.violations:
         viol('connection-window-exhausted-by-racing-data', 'peer view of the connection window: %d' % conn[0])
     # -- the compression context survived: a block on a live stream that uses the raced fields -----
